@@ -48,6 +48,9 @@ func (x *vc) loadInvariant(st *state, addr ssa.Value, v Val) {
 		if x.nn("field", fieldKey(a.X.Type(), a.Field)) {
 			x.assume(st.guard, x.nonNilFormula(v))
 		}
+		if rg, ok := x.p.cons.fieldRange[fieldKey(a.X.Type(), a.Field)]; ok && v.T != "" {
+			x.assume(st.guard, and(app("<=", rg[0], v.T), app("<=", v.T, rg[1])))
+		}
 	case *ssa.IndexAddr:
 		var et types.Type
 		switch t := a.X.Type().Underlying().(type) {
@@ -79,6 +82,9 @@ func (x *vc) storeInvariant(fr *frame, st *state, addr ssa.Value, val ssa.Value,
 	switch a := addr.(type) {
 	case *ssa.FieldAddr:
 		k := fieldKey(a.X.Type(), a.Field)
+		if rg, ok := x.p.cons.fieldRange[k]; ok && v.T != "" {
+			x.oblige(st, "fieldrange", "", and(app("<=", rg[0], v.T), app("<=", v.T, rg[1])), pos, "invariant: "+rg[0]+" <= "+k+" <= "+rg[1], true)
+		}
 		if x.nn("field", k) {
 			x.oblige(st, "nonnil", "field", or(x.nonNilFormula(v), excuse), pos, "invariant: field "+k+" is never nil (except when the producing call returned an error)", true)
 		}
